@@ -55,6 +55,18 @@ def catalogue():
     def _(wn): del wn.get_node("J3").demand_timeseries_list[:]
     @dev("j_negative_demand", "j3dem")
     def _(wn): wn.get_node("J3").demand_timeseries_list[0].base_value = -0.003
+    @dev("j_negative_elev")
+    def _(wn): wn.get_node("J3").elevation = -12.5
+    @dev("long_names")
+    def _(wn):
+        wn.add_junction("J" + "x" * 30, base_demand=0.003, elevation=4.0, coordinates=(30.0, 20.0))      # 31 characters
+        wn.add_pipe("P" + "y" * 30, "J3", "J" + "x" * 30, length=80.0, diameter=0.15, roughness=95.0)
+    @dev("pat_long")
+    def _(wn):
+        wn.add_pattern("p30", [0.4 + 0.07 * ((i * 7) % 13) for i in range(30)])
+        wn.get_node("J2").demand_timeseries_list[0].pattern_name = "p30"
+    @dev("p_many_vertices")
+    def _(wn): wn.get_link("p4").vertices = [(31.0 + i, (-1.0) ** i * 2.5) for i in range(6)]
     # ---------------- tank
     @dev("t_overflow")
     def _(wn): wn.get_node("T1").overflow = True
@@ -114,6 +126,10 @@ def catalogue():
     @dev("pu_head3", "p1kind")
     def _(wn):
         _repl(wn, "p1"); wn.add_curve("hc3", "HEAD", [(0.0, 40.0), (0.05, 32.0), (0.1, 12.0)]); wn.add_pump("p1", "R1", "J1", "HEAD", "hc3")
+    @dev("pu_head5", "p1kind")
+    def _(wn):
+        _repl(wn, "p1"); wn.add_curve("hc5", "HEAD", [(0.0, 42.0), (0.02, 40.0), (0.05, 33.0), (0.08, 21.0), (0.1, 10.0)])
+        wn.add_pump("p1", "R1", "J1", "HEAD", "hc5")
     @dev("pu_power", "p1kind")
     def _(wn):
         _repl(wn, "p1"); wn.add_pump("p1", "R1", "J1", "POWER", 15000.0)
